@@ -179,10 +179,6 @@ func c12Release(a *An, tf *tableFacts, root *ssa.Function) {
 		call := rm.Instr.(*ssa.Call)
 		ap := stripIDs(rm.Ctx.path(call.Call.Args[1]))
 		key := sprintf("%s:rm_watch(%s)", shortFn(root), tail(stripCallArgs(ap), 70))
-		if seen[key] {
-			continue
-		}
-		seen[key] = true
 		ok, how := false, ""
 		for _, op := range ops {
 			if op.Kind != "delete" || op.Table != tf.wdTable {
@@ -201,6 +197,10 @@ func c12Release(a *An, tf *tableFacts, root *ssa.Function) {
 		if !ok {
 			how = "no wd-table removal of " + ap + " precedes it in this calling context (the tables would keep an entry the kernel no longer has)"
 		}
+		if ok && seen[key] {
+			continue // every site is judged; sites that hold are reported once per key
+		}
+		seen[key] = true
 		a.R.ob("C12.2", key, "inotify_rm_watch is issued only for a descriptor whose entry was just taken out of the tables", a.P.instrPos(call), ok, how)
 	}
 }
@@ -542,12 +542,12 @@ func c12FdOrigin(a *An, root *ssa.Function) {
 			call := v.Instr.(*ssa.Call)
 			p := stripIDs(v.Ctx.path(call.Call.Args[0]))
 			key := sprintf("%s:%s:fd", shortFn(call.Parent()), name)
-			if seen[key] {
+			f := v.Ctx.fieldOfValue(call.Call.Args[0])
+			ok := strings.HasPrefix(p, "recv.") && f != nil && a.Ro.StructOf[f] == a.Ro.Backend
+			if ok && seen[key] {
 				continue
 			}
 			seen[key] = true
-			f := v.Ctx.fieldOfValue(call.Call.Args[0])
-			ok := strings.HasPrefix(p, "recv.") && f != nil && a.Ro.StructOf[f] == a.Ro.Backend
 			a.R.ob("C12.4", key, "the syscall addresses the Watcher's own inotify descriptor", a.P.instrPos(call), ok, "descriptor operand: "+p)
 		}
 	}
